@@ -208,5 +208,8 @@ pub fn no_panic<T>(f: impl FnOnce() -> T) -> Option<T> {
 }
 
 pub fn silence_panics() {
+    if std::env::var_os("WFH_SHOW_PANICS").is_some() {
+        return;
+    }
     std::panic::set_hook(Box::new(|_| {}));
 }
